@@ -12,18 +12,47 @@ pub fn run(args: &Args) {
   for case_no in 0..args.count {
     let mut crng = rng.fork();
     let ts = crng.chance(1, 2);
-    let df = directive_file(&mut crng, &DirGenOpts { file_word: "deno-lint-ignore-file", line_word: "deno-lint-ignore", decoys: vec![], ts });
-    let (codes, kind) = rule_subset(&mut crng);
-    let ext = if ts { "ts" } else { ["js", "jsx", "mjs"][crng.below(3)] };
+    let mut df = directive_file(&mut crng, &DirGenOpts { file_word: "deno-lint-ignore-file", line_word: "deno-lint-ignore", decoys: vec![], ts });
+    let (mut codes, mut kind) = rule_subset(&mut crng);
+    let mut ext = if ts { "ts" } else { ["js", "jsx", "mjs"][crng.below(3)] };
+    // every second case: a JSX program whose result depends on the per-file configuration (both factories set,
+    // usually different), all rules — the configuration must reach the rules the same way through both entry points
+    let jsx_case = case_no % 2 == 1;
+    let mut cfg = LintConfig { default_jsx_factory: if crng.chance(1, 3) { Some("h".into()) } else { None }, default_jsx_fragment_factory: None };
+    if jsx_case {
+      use crate::d_cfg::*;
+      let n = crng.range(1, 3);
+      let mut body = String::new();
+      for _ in 0..n {
+        body.push_str(JSX_BODIES[crng.below(JSX_BODIES.len())]);
+        body.push('\n');
+      }
+      df.src = format!("{}{}\n{}", PRAGMAS[crng.below(PRAGMAS.len())], IMPORTS[crng.below(IMPORTS.len())], body);
+      ext = ["tsx", "jsx"][crng.below(2)];
+      codes = all_codes();
+      kind = "all+jsx-config";
+      cfg = LintConfig {
+        default_jsx_factory: FACTORIES[crng.below(FACTORIES.len())].map(|s| s.to_string()),
+        default_jsx_fragment_factory: FRAGS[crng.below(FRAGS.len())].map(|s| s.to_string()),
+      };
+      out.count(&format!("factories={}/{}", cfg.default_jsx_factory.is_some(), cfg.default_jsx_fragment_factory.is_some()));
+    }
     let linter = mk_linter(rules_by_codes(&codes), &Words::default());
     let spec = spec_for(ext);
     let mt = MediaType::from_specifier(&spec);
-    let cfg = LintConfig { default_jsx_factory: if crng.chance(1, 3) { Some("h".into()) } else { None }, default_jsx_fragment_factory: None };
+    // every third case: an external linter takes part, through both entry points alike
+    let external: Option<ExternalLinterCb> = if case_no % 3 == 2 {
+      out.count("external=yes");
+      let len = df.src.len();
+      Some(ext_cb(Some(ExtSpec { diags: vec![("ext-rule".into(), if len > 2 { Some((0, 1)) } else { None }, "external finding".into()), ("ext-rule".into(), None, "no range".into())], codes: vec!["ext-rule".into(), "ext-unused".into()] })))
+    } else {
+      None
+    };
     out.count(&format!("subset={}", kind));
     out.count(&format!("ext={}", ext));
     out.eval(&df.src, true, json!({"src": df.src, "ext": ext, "rules": codes.len()}));
     let a = std::panic::catch_unwind(std::panic::AssertUnwindSafe(|| {
-      linter.lint_file(LintFileOptions { specifier: spec.clone(), source_code: df.src.clone(), media_type: mt, config: cfg.clone(), external_linter: None })
+      linter.lint_file(LintFileOptions { specifier: spec.clone(), source_code: df.src.clone(), media_type: mt, config: cfg.clone(), external_linter: external.clone() })
     }));
     let parsed = deno_ast::parse_program(deno_ast::ParseParams {
       specifier: spec.clone(),
@@ -33,11 +62,11 @@ pub fn run(args: &Args) {
       maybe_syntax: Some(deno_ast::get_syntax(mt)),
       scope_analysis: true,
     });
-    let meta = json!({"case": case_no, "src": df.src, "ext": ext, "rules": codes});
+    let meta = json!({"case": case_no, "src": df.src, "ext": ext, "rules": if codes.len() > 40 { json!("all") } else { json!(codes) }, "jsx_factory": cfg.default_jsx_factory, "jsx_fragment_factory": cfg.default_jsx_fragment_factory, "external": external.is_some()});
     match (a, parsed) {
       (Ok(Ok((_ps, d1))), Ok(ps2)) => {
         let d1 = conv_all(&d1);
-        let b = std::panic::catch_unwind(std::panic::AssertUnwindSafe(|| linter.lint_with_ast(&ps2, cfg.clone(), None)));
+        let b = std::panic::catch_unwind(std::panic::AssertUnwindSafe(|| linter.lint_with_ast(&ps2, cfg.clone(), external.clone())));
         match b {
           Ok(d2) => {
             let d2 = conv_all(&d2);
